@@ -43,6 +43,11 @@ func stringToArrayIndex(name string) int64 {
 		// you cannot store a uint32 length for an index of uint32
 		return -1
 	}
+	if strconv.FormatInt(index, 10) != name {
+		// Only the canonical spelling is an array index (ES5 15.4: ToString(ToUint32(P)) === P);
+		// "01", "+1" and "-0" are ordinary property names.
+		return -1
+	}
 	return index
 }
 
